@@ -346,3 +346,32 @@ func runNativeOnce(r *Replay, f func(*T)) (out Outcome) {
 	out.Reached = t.Reached
 	return out
 }
+
+// ---------- non-forking connectives for oracles ----------
+//
+// Go's && and || are control flow: under the engine each one forks the path. The
+// functions below evaluate all their (already computed) arguments and are intercepted by
+// the engine as ONE symbolic term, so that an oracle such as "the result is one of the
+// n inputs and not greater than any of them" costs one solver query instead of 2^n paths.
+
+// Or is a[0] || a[1] || ... without short-circuit (false for no arguments).
+func Or(a ...bool) bool {
+	r := false
+	for _, x := range a {
+		r = r || x
+	}
+	return r
+}
+
+// And is a[0] && a[1] && ... without short-circuit (true for no arguments).
+func And(a ...bool) bool {
+	r := true
+	for _, x := range a {
+		r = r && x
+	}
+	return r
+}
+
+// SameF64 reports whether a and b are the same float64 result: a == b (so +0 and -0 are
+// the same) or both are NaN.
+func SameF64(a, b float64) bool { return a == b || (a != a && b != b) }
